@@ -18,6 +18,10 @@ CLAIMED = {
    text="Bounded model checking of the real check-digit validators (DE, IT, FR VAT+SIREN, PL, GR, AT, BE, CH, NL, PT, BR, IN, ES DNI/NIE/CIF, CO in thorough, common Luhn) with z3: for every ASCII string of the national length (and +-1) the solver shows accepted <=> national format and check digit per a reference statement of the published algorithm, and for IT/FR/PL/CH (DE/AT thorough) that no two accepted codes differ in exactly one digit (2-safety). Regular expressions are evaluated as NFAs built from the pattern strings in the package initialisers.",
    note="Assumes go/ssa faithful, z3 sound, reference algorithms transcribed from the cited national sources. ES organisation codes: sandwich between the lenient (digit or letter control) and the strict official rule. Outside: GB, MX; normalisers; non-ASCII bytes; reflection-driven dispatch from tax.Identity.Validate. Defect found and fixed: NL accepted signs (2e5c770).",
    ref="DESIGN.md 5 (C13)"),
+ "C11": dict(
+   text="Leaf level only, bounded model checking with z3: for the string-valued leaf types whose published schema carries a pattern, a length limit or a format (cbc.Key, cbc.Code, l10n.Code, cal.Date, cal.DateTime) the solver shows that whatever the Go side accepts is written as text the published schema file accepts: every ASCII string of 1..4 (6) bytes accepted by Validate matches the published pattern and length limits (read from data/schemas at run time), a string longer than the published maximum is refused, and every date / date-time accepted by Validate (year, month, day, hour, minute, second symbolic around and far beyond their ranges) prints as RFC 3339 full-date / the published date-time pattern.",
+   note="This decides only the part of C11 that has a symbolic dimension. Outside (not decided): validity of the schema files as JSON Schema and their references, struct-level constraints (required members, enumerations, additionalProperties) which come from reflection over struct tags, conformance of whole serialised documents, uuid and uri formats, other leaf types. Defect found and fixed: 629780d (years outside 0-9999).",
+   ref="DESIGN.md 10.3, 10.7"),
  "C12": dict(
    text="Bounded model checking of rate selection with z3: for every shipped regime x category x rate key x qualifier context (tables imported natively from the initialised registry of the current tree) and for EVERY valid civil date 1900..2100 (symbolic year/month/day) the solver shows RateDef.Value and Combo.prepareRate return the applicable value with the latest start date on or before the date (none => error, exempt => no percent, surcharge copied); a generic lemma over arbitrary 1..3-value tables with symbolic dates shows the order check admits only strictly descending tables and Value is latest-on-or-before for them.",
    note="Assumes native import by reflection is faithful, go/ssa faithful, z3 sound. Outside: value-date/issue-date choice in bill.calculate; ordering of tag/extension-qualified values (not checked by the code either). Defects found and fixed: start date exclusive (1536397), nil Since panic (d50e370).",
@@ -81,7 +85,6 @@ CLAIMED = {
 }
 
 NA = {
- "C11": "published JSON Schemas are data produced by reflection-driven generation and conformance of whole serialised documents; no integer/byte kernel to make symbolic, reflect and encoding/json are beyond the encoder (amount/percentage leaf patterns are decided under C06)",
  "C19": "finite regenerate-and-compare over registered definitions with no symbolic dimension: deciding it is a concrete run plus diff over json.Marshal of reflected definitions, not a solver query",
 }
 PENDING = "check not built yet (work in progress in this session)"
